@@ -23,12 +23,14 @@ for d in ("litex/soc/cores/clock", "litex/soc/interconnect/axi"):
     for p in glob.glob(os.path.join(REPO, d, "*.py")):
         files.add(os.path.relpath(p, REPO))
 out = {}
+eqs = {}
 n = 0
 for rel in sorted(files):
     path = os.path.join(REPO, rel)
     if not os.path.isfile(path):
         continue
     tree = names.canon_consts(names.canon_compare(ast.parse(open(path).read())))
+    eqs[rel] = sorted(names.eq_pairs(tree))
     ent = {}
     for sname, node in names.scopes(tree):
         fp = names.fingerprints(node)
@@ -40,4 +42,6 @@ for rel in sorted(files):
         out[rel] = ent
 with open(names.TABLE, "w") as f:
     json.dump(out, f, indent=0, sort_keys=True)
+with open(names.EQTABLE, "w") as f:
+    json.dump({k: v for k, v in eqs.items() if v}, f, indent=0, sort_keys=True)
 print(f"{len(out)} files, {sum(len(v) for v in out.values())} scopes, {n} local names -> {names.TABLE} ({os.path.getsize(names.TABLE)//1024} KB)")
